@@ -524,7 +524,7 @@ func (eng *Engine) runPath(sv *Solver, h *Harness, prefix []int64) (res PathResu
 		globals: map[*ssa.Global]*Value{}, pkgInit: map[*ssa.Package]bool{},
 		maxSteps: eng.maxSteps, covers: map[string]bool{}, fnSteps: map[*ssa.Function]int64{},
 		stubsHit: map[string]int{}, pool: map[*Value][]Value{}, hashes: map[*Value]*hashState{},
-		once: map[*Value]bool{}, oracle: map[string]int{}, unwind: eng.unwind, sizeBound: eng.sizeBound, trace: eng.trace}
+		once: map[*Value]bool{}, oracle: map[string]int{}, oracleArg: map[string]Value{}, unwind: eng.unwind, sizeBound: eng.sizeBound, trace: eng.trace}
 	e.emptyStr = &StrV{}
 	e.rtErrT = eng.rtErrT
 	sv.Reset(e.tc)
